@@ -58,11 +58,16 @@ void* memmove(void* d, const void* s, size_t n)
     return d;
 }
 
+/* ghost record of the last large memset: units use it to state "the range [p, p+n) was set to c"
+ * through memset's own (trusted, libc) contract instead of reading the bytes back */
+void* g_memset_last_ptr; int g_memset_last_val; size_t g_memset_last_len; unsigned g_memset_large_calls;
+
 #define S1(i) if (n > (i)) dd[i] = (unsigned char)c;
 void* memset(void* d, int c, size_t n)
 {
     unsigned char* dd = (unsigned char*)d;
     if (n == 0) return d;
+    if (n > PRECISE_MAX) { g_memset_last_ptr = d; g_memset_last_val = c; g_memset_last_len = n; g_memset_large_calls++; }
     if (n <= PRECISE_MAX) {
         S1(0) S1(1) S1(2) S1(3) S1(4) S1(5) S1(6) S1(7) S1(8) S1(9) S1(10) S1(11) S1(12) S1(13) S1(14) S1(15)
         S1(16) S1(17) S1(18) S1(19) S1(20) S1(21) S1(22) S1(23) S1(24) S1(25) S1(26) S1(27) S1(28) S1(29) S1(30) S1(31)
